@@ -1041,6 +1041,26 @@ pub fn direct_c05(ctx: &mut Ctx) {
             let ts: Vec<Tensor> = (0..n).map(|_| target_for(&mut g, &Sh::Flat(3), "mse")).collect();
             jobs.push((spec, xs, ts));
         }
+        // soft-max as the activation of spatial layers (a convolution, a deconvolution, a convolution inside a block): its
+        // backward pass depends on its own sample's forward pass only
+        for kind in 0..3usize {
+            let k3 = |g: &mut Gen, c: usize| g.tensor_of(&Shape::Triple(c, 3, 3), false);
+            let first = match kind {
+                0 => Build::Layer(InnerSpec::Conv { filters: 2, act: "softmax".into(), k: (3, 3), s: (1, 1), p: (1, 1), d: (1, 1), dropout: None, ks: (0..2).map(|_| k3(&mut g, 1)).collect() }),
+                1 => Build::Layer(InnerSpec::Deconv { filters: 2, act: "softmax".into(), k: (3, 3), s: (1, 1), p: (1, 1), dropout: None, ks: (0..2).map(|_| k3(&mut g, 1)).collect() }),
+                _ => Build::Feedback { inner: vec![InnerSpec::Conv { filters: 1, act: "softmax".into(), k: (3, 3), s: (1, 1), p: (1, 1), d: (1, 1), dropout: None, ks: vec![k3(&mut g, 1)] }],
+                    loops: 2, inskips: false, outskips: false, acc: "add".into() },
+            };
+            let count = if kind == 2 { 20 } else { 40 };
+            let dcfg = ArchCfg { dropout: false, wscale: 0.5, ..ArchCfg::small() };
+            let builds = vec![first, Build::Layer(crate::gen::arch::dense_spec(&mut g, &dcfg, count, 3, "softmax", true))];
+            let spec = NetSpec { input: Shape::Triple(1, 4, 5), builds, skipacc: "add".into(), loopacc: "mean".into(),
+                opt: Some(crate::ops::scalar::OptSpec::Sgd(0.05, None)), obj: "ce".into(), clamp: None };
+            let n = 24;
+            let xs: Vec<Tensor> = (0..n).map(|_| input_for(&mut g, &spec.input)).collect();
+            let ts: Vec<Tensor> = (0..n).map(|_| target_for(&mut g, &Sh::Flat(3), "ce")).collect();
+            jobs.push((spec, xs, ts));
+        }
         // two feedback blocks of the same sizes and different wiring (input skips / output skips), trained one after the
         // other in ONE pool: nothing a worker thread keeps from the first may show in the second
         use crate::gen::arch::dense_spec;
@@ -1048,7 +1068,9 @@ pub fn direct_c05(ctx: &mut Ctx) {
         let inner = dense_spec(&mut g, &dcfg, 3, 3, "tanh", true);
         let head = dense_spec(&mut g, &dcfg, 3, 2, "linear", true);
         let mk = |i: bool, o: bool| NetSpec { input: Shape::Single(3), builds: vec![Build::Feedback { inner: vec![inner.clone()], loops: 2, inskips: i, outskips: o, acc: "add".into() },
-            Build::Layer(head.clone())], skipacc: "add".into(), loopacc: "mean".into(), opt: Some(crate::ops::scalar::OptSpec::Sgd(0.05, None)), obj: "mse".into(), clamp: None };
+            Build::Layer(head.clone())], skipacc: "add".into(), loopacc: "mean".into(),
+            // (an optimizer whose step depends on the step number and on carried moments: nothing of either may be left behind either)
+            opt: Some(crate::ops::scalar::OptSpec::Adam(0.01, 0.9, 0.999, 1e-8, None)), obj: "mse".into(), clamp: None };
         let n = 24;
         let xs: Vec<Tensor> = (0..n).map(|_| input_for(&mut g, &Shape::Single(3))).collect();
         let ts: Vec<Tensor> = (0..n).map(|_| target_for(&mut g, &Sh::Flat(2), "mse")).collect();
